@@ -185,14 +185,17 @@ func (m *Mercury) GetNodeStatus(ctx context.Context, nodename string) (*types.No
 func (m *Mercury) NodeStatusStream(ctx context.Context) chan *types.NodeStatus {
 	ch := make(chan *types.NodeStatus)
 	logger := log.WithFunc("store.etcdv3.NodeStatusStream")
+	// establish the watch before returning: a caller that reads the current
+	// statuses after this call must not miss a change made in between
+	logger.Infof(ctx, "watch on %s", nodeStatusPrefix)
+	watchChan := m.Watch(ctx, nodeStatusPrefix, clientv3.WithPrefix())
 	_ = m.pool.Invoke(func() {
 		defer func() {
 			logger.Info(ctx, "close NodeStatusStream channel")
 			close(ch)
 		}()
 
-		logger.Infof(ctx, "watch on %s", nodeStatusPrefix)
-		for resp := range m.Watch(ctx, nodeStatusPrefix, clientv3.WithPrefix()) {
+		for resp := range watchChan {
 			if resp.Err() != nil {
 				if !resp.Canceled {
 					logger.Error(ctx, resp.Err(), "watch failed")
